@@ -22,8 +22,14 @@ Judge(e) ==
                  /\ (e.seen # SeenName(c) \/ (e.echoed /\ e.resp # RespName(c)))
   IN FlagAll((IF aclBad THEN {<<l, IF byNs \/ (~mustDeny /\ HasNsPolicy(c) /\ ~HasMethodPolicy(c)) THEN "c16" ELSE "c15">>} ELSE {})
              \cup (IF nameBad THEN {<<l, "c13">>} ELSE {}))
+\* a mapping list is rejected at start-up iff it is not one-to-one
+JudgeMap(e) == FlagAll(IF e.rejected = OneToOne(e.list) THEN {<<l, "badmap">>} ELSE {})
+\* search-attribute direction on the assembled servers
+JudgeSa(e) == FlagAll(IF e.ran /\ e.keys = SaWant(e.case) THEN {} ELSE {<<l, "sadir">>})
 PNext == /\ l <= Len(Trace) /\ l' = l + 1
-         /\ LET e == Trace[l] IN IF e.ev = "Case" /\ e.ran THEN Judge(e) ELSE TRUE
+         /\ LET e == Trace[l] IN IF e.ev = "Case" /\ e.ran THEN Judge(e)
+                                 ELSE IF e.ev = "BadMap" THEN JudgeMap(e)
+                                 ELSE IF e.ev = "SaCase" THEN JudgeSa(e) ELSE TRUE
 PSpec == l = 1 /\ [][PNext]_l
 Report == PrintT(<<"OBS_VIOLATIONS", TLCGet(1)>>) /\ PrintT(<<"OBS_TRACE_LEN", Len(Trace)>>)
 =============================================================================
